@@ -122,4 +122,9 @@ func (szr *Sizer) GetAt(values map[string]string, idx uint16) (map[string]string
 // Reset flushes all size measurements, making the sizer available for reuse.
 func (szr *Sizer) Reset() {
 	szr.crsrs = []uint32{}
+	// the sink and the measured members belong to the page that was laid out: a symbol that was
+	// the sink of one node is an ordinary value in another
+	szr.sink = ""
+	szr.memberSizes = make(map[string]uint16)
+	szr.totalMemberSize = 0
 }
